@@ -15,6 +15,12 @@ CHECKS["C14"] = {
     "harnesses": [
         {"pkg": "complexity", "harness": "Harness_C14_safeAdd", "reach": ["safeAdd.compared"],
          "what": "complexity.safeAdd vs saturating reference, all 2^128 operand pairs (64-bit bit-vectors, no bound)"},
+        {"pkg": "graphql/handler/extension", "harness": "Harness_C14_walk", "setup": "Setup_C14_walk", "reach": ["c14.walk"], "workers": 6,
+         "what": "complexity.Calculate vs documented definition on 6 corpus operations (interface, union, fragments, aliases), custom costs symbolic (defined?, 64-bit constant) per (type, field)"},
+        {"pkg": "graphql/handler/extension", "harness": "Harness_C14_monotone", "setup": "Setup_C14_walk", "reach": ["c14.mono"], "workers": 4,
+         "what": "adding selections never decreases complexity, 2 operation pairs, all constant custom costs"},
+        {"pkg": "graphql/handler/extension", "harness": "Harness_C14_gate", "setup": "Setup_C14_walk", "reach": ["c14.gate"], "workers": 4,
+         "what": "ComplexityLimit.MutateOperationContext rejects iff complexity > limit, all 64-bit limits and costs, 3 operations"},
     ],
 }
 
